@@ -158,6 +158,8 @@ def run_groups(prop, cfg, tier):
     bounded = list(cfg.get("bounded_quick", []))
     if tier == "thorough" or cfg.get("bounded_in_quick"):
         bounded += cfg.get("bounded", [])
+    if tier == "thorough":
+        bounded += cfg.get("bounded_thorough", [])
     for b in bounded:
         if b["group"] not in groups:
             groups.append(b["group"])
